@@ -54,6 +54,9 @@ def compare_values(polar_vals, oracle_vals):
                 ok = False
             if not ok:
                 bad.append((n, "wrong-value-" + tag, s, ov))
+        elif tag == "undefined-limit":
+            # the closed form is 0/0 at the parameter point; s is its limit there
+            bad.append((n, "removable-singularity" if Fr(s) == o else "undefined-at-point-and-limit-wrong", s, ov))
         elif tag == "undefined":
             bad.append((n, "undefined-at-point", s, ov))
         else:
